@@ -114,6 +114,48 @@ func genDocKVs(rt *rapid.T, depth int) []kvT {
 	return kvs
 }
 
+// "template" mode: documents carry unit / total / count; the templates call functions qryn
+// registers (internal_planner functionMap: ToUpper, ToLower, Replace, sprig's lower, upper,
+// trunc, replace, repeat, contains, hasPrefix, int, add, sub, mul, div, mod ...) and FAIL AT RUN
+// TIME for some entries: count 0, non-numeric or missing makes div / mod divide by zero
+// (missingkey=zero: a missing field reads as ""), a negative count makes repeat panic.
+// Conversions only meet plain integers and plain words (other spellings are converter-dependent).
+var (
+	tplUnits    = []string{"ms", "s", "MiB"}
+	tplTotals   = []string{"10", "7", "100", "-3", "zz"}
+	tplCounts   = []string{"0", "2", "5", "none", "-1", "3"}
+	fnTemplates = []string{
+		`{{.unit}}:{{div (int .total) (int .count)}}`,
+		`{{ToUpper .unit}} {{mod (int .total) (int .count)}}`,
+		`{{lower .unit}}|{{add (int .total) 1}}`,
+		`{{if contains "i" .unit}}I{{else}}o{{end}}-{{div 100 (int .count)}}`,
+		`{{trunc 2 .unit}}{{repeat (int .count) "x"}}`,
+		`{{replace "s" "5" .unit}}={{mul (int .total) (int .count)}}`,
+		`{{Replace .unit "M" "m" 1}}/{{sub (int .total) (int .count)}}`,
+		`a{{div 7 (int .count)}}b`,
+		`{{if hasPrefix "m" .unit}}{{div (int .total) (int .count)}}{{else}}-{{end}}`,
+	}
+	// line_format only: the line itself takes part
+	fnLineTemplates = []string{
+		`{{._entry}} q={{div (int .total) (int .count)}}`,
+		`{{div (int .total) (int .count)}}:{{ToLower ._entry}}`,
+	}
+)
+
+// "regex" mode: line filters |~ / !~ placed after the split whose pattern is a pure literal
+// behind flags or escapes, a real regex, or plain text - against lines that contain case
+// variants and the literal spellings.
+var (
+	rxPatterns = []string{
+		`(?i)timeout`, `(?i)10\.0\.0\.1`, `\bERR\b`, `(?s)a.b`, `(?i)err`, `(?i)time.ut`, `(?is)a.b`,
+		`10\.0\.0\.1`, `10.0.0.1`, `timeout`, `Timeout`, `ERR|WARN`, `time(out)?`, `\d+\.\d+`, `(?i)\bwarn\b`, `a\.b`, `\[x\]`,
+	}
+	rxWords = []string{
+		"timeout", "Timeout", "TIMEOUT", "time out", "at 10.0.0.1", "at 10x0y0z1", "ERR", "ERROR", "an ERR x", "err",
+		"a\nb", "a.b", "axb", "A\nB", "warn", "WARN", "WARNING", "[x]", "x", "1.5",
+	}
+)
+
 // values of the label that both the stream and its lines carry in "collide" mode
 var collideVals = []string{"unknown", "info", "error", "0"}
 
@@ -354,7 +396,25 @@ func genCaseOpt(rt *rapid.T, opt genOpts) splitCase {
 	// whatever the convention, lines {"level":"info"} and {"level":"error"} of one stream are
 	// two label sets and must be two series. In two thirds of these cases the query stays
 	// "plain": no later drop / label_format / by / without that would recompute identities.
-	collide := rapid.IntRange(0, 3).Draw(rt, "collidemode") == 0
+	tmplMode := rapid.IntRange(0, 4).Draw(rt, "tmplmode") == 0
+	rxMode := !tmplMode && rapid.IntRange(0, 4).Draw(rt, "rxmode") == 0
+	rxPat, rxFamily := "", rxWords
+	if rxMode {
+		rxPat = pick(rt, rxPatterns, "rx_pat")
+		// lines mostly speak about what the pattern is about, in several spellings
+		low := strings.ToLower(rxPat)
+		switch {
+		case strings.Contains(low, "time"):
+			rxFamily = []string{"timeout", "Timeout", "TIMEOUT", "time out", "timeXut", "a TimeOut b"}
+		case strings.Contains(low, "10"):
+			rxFamily = []string{"at 10.0.0.1", "at 10x0y0z1", "10.0.0.1", "110.0.0.12", "10.0.0"}
+		case strings.Contains(low, "err"), strings.Contains(low, "warn"):
+			rxFamily = []string{"ERR", "ERROR", "an ERR x", "err", "Err:", "warn", "WARN", "WARNING", "a Warn b"}
+		case strings.Contains(low, "a.b"), strings.Contains(low, "a\\.b"):
+			rxFamily = []string{"a\nb", "a.b", "axb", "A\nB", "A.B", "ab"}
+		}
+	}
+	collide := !tmplMode && rapid.IntRange(0, 3).Draw(rt, "collidemode") == 0
 	collideName := ""
 	plain := false
 	if collide {
@@ -410,6 +470,20 @@ func genCaseOpt(rt *rapid.T, opt genOpts) splitCase {
 					}
 				}
 			}
+			if tmplMode {
+				line = tmplLine(rt, format)
+			}
+			if rxMode && rapid.IntRange(0, 3).Draw(rt, "rxline") > 0 {
+				w := pick(rt, rxFamily, "rxword")
+				if rapid.IntRange(0, 3).Draw(rt, "rxother") == 0 {
+					w = pick(rt, rxWords, "rxword2")
+				}
+				if format == "logfmt" {
+					line = "msg=" + strconv.Quote(w) + " level=info"
+				} else {
+					line = `{"msg":` + strconv.Quote(w) + `,"level":"info"}`
+				}
+			}
 			if ulabel != "" && rapid.IntRange(0, 3).Draw(rt, "uval") > 0 {
 				// an unwrap query: most lines carry a number under the unwrapped key
 				line = withNumber(line, format, ulabel, pick(rt, docNumVals, "unum"))
@@ -454,6 +528,31 @@ func genCaseOpt(rt *rapid.T, opt genOpts) splitCase {
 		c.Expr.Stages = append(c.Expr.Stages, refeval.Stage{Kind: other})
 	default:
 		c.Expr.Stages = append(c.Expr.Stages, refeval.Stage{Kind: format})
+	}
+	if tmplMode {
+		// the parser of the data's format, then a template stage with function calls
+		c.Expr.Stages[len(c.Expr.Stages)-1] = refeval.Stage{Kind: format}
+		if rapid.Bool().Draw(rt, "tmpl_line") {
+			t := pick(rt, append(append([]string{}, fnTemplates...), fnLineTemplates...), "fn_tpl")
+			c.Expr.Stages = append(c.Expr.Stages, refeval.Stage{Kind: refeval.KLineFormat, Val: t})
+		} else {
+			dst := pick(rt, []string{"out", "unit", "total"}, "fn_dst")
+			c.Expr.Stages = append(c.Expr.Stages, refeval.Stage{Kind: refeval.KLabelFormat,
+				Params: []refeval.Param{{Name: dst, Val: pick(rt, fnTemplates, "fn_tpl"), HasVal: true}}})
+		}
+	}
+	if rxMode {
+		op := pick(rt, []string{"|~", "|~", "!~"}, "rx_op")
+		st := refeval.Stage{Kind: refeval.KLineFilter, Op: op, Val: rxPat}
+		switch rapid.IntRange(0, 3).Draw(rt, "rx_pos") {
+		case 0: // the line becomes the message itself (real newlines, no JSON escapes)
+			c.Expr.Stages[len(c.Expr.Stages)-1] = refeval.Stage{Kind: format}
+			c.Expr.Stages = append(c.Expr.Stages, refeval.Stage{Kind: refeval.KLineFormat, Val: "{{.msg}}"}, st)
+		case 1: // behind another in-process stage
+			c.Expr.Stages = append(c.Expr.Stages, refeval.Stage{Kind: refeval.KLabelFilter, Filter: genLabelFilterLeaf(rt, []string{"app", "level"})}, st)
+		default: // right behind the split-forcing stage
+			c.Expr.Stages = append(c.Expr.Stages, st)
+		}
 	}
 	npost := rapid.IntRange(0, 3).Draw(rt, "npost")
 	for i := 0; i < npost; i++ {
@@ -576,4 +675,28 @@ func withNumber(line, format, key, num string) string {
 		return "{" + strconv.Quote(key) + ":" + num + "}"
 	}
 	return line[:len(line)-1] + "," + strconv.Quote(key) + ":" + num + "}"
+}
+
+// tmplLine prints a document with unit / total / count (count missing 1 time in 5).
+func tmplLine(rt *rapid.T, format string) string {
+	unit, total := pick(rt, tplUnits, "t_unit"), pick(rt, tplTotals, "t_total")
+	kvs := []kvT{{k: "unit", raw: strconv.Quote(unit)}, {k: "total", raw: numOrStr(total)}}
+	if rapid.IntRange(0, 4).Draw(rt, "t_nocount") > 0 {
+		kvs = append(kvs, kvT{k: "count", raw: numOrStr(pick(rt, tplCounts, "t_count"))})
+	}
+	if format == "logfmt" {
+		var parts []string
+		for _, e := range kvs {
+			parts = append(parts, e.k+"="+strings.Trim(e.raw, `"`))
+		}
+		return strings.Join(parts, " ")
+	}
+	return printDoc(kvs)
+}
+
+func numOrStr(v string) string {
+	if _, err := strconv.Atoi(v); err == nil {
+		return v
+	}
+	return strconv.Quote(v)
 }
